@@ -1,8 +1,358 @@
+/-
+C17 — stream framing is independent of how the bytes are chunked.
+
+Property theorems about `Model/TcpFraming.lean` (the model of `tcp_stream.rs`):
+
+* `read_chunking_independent` : two read scripts that carry the same bytes and end the same way
+  (any chunk sizes, any number of interleaved `pending`s) make the stream deliver the same
+  messages and the same terminal event — whatever the send side is doing meanwhile;
+* `read_frames`               : bytes = frame m₁ ++ … ++ frame mₖ (every mᵢ non-empty) ⇒ delivered
+  = [m₁ … mₖ]; clean end on EOF at the boundary, error on EOF inside a prefix or a body;
+* `write_bytes`               : for every acceptance script and every interleaving of sends and polls,
+  bytes written ++ bytes still owed = frame m₁ ++ … ++ frame mₖ; hence always a prefix, and everything
+  once the send loop has finished;
+* `no_truncated_merged_duplicated` : whatever the chunking, the close position and the send side,
+  the delivered list is a prefix of the list of messages that were framed.
+-/
 import HickoryVerif.Model.TcpFraming
 
 namespace HickoryVerif.C17
 open HickoryVerif HickoryVerif.TcpFraming
 
-theorem placeholder : True := trivial
+/-! ## specification vocabulary -/
 
-end HickoryVerif.C17
+/-- a message on the wire: two-byte big-endian length, then the message -/
+def frame (m : Bytes) : Bytes := [m.length / 256, m.length % 256] ++ m
+
+def frames : List Bytes → Bytes
+  | [] => []
+  | m :: ms => frame m ++ frames ms
+
+/-- a message that can be framed: non-empty and at most 65535 bytes -/
+def Framable (m : Bytes) : Prop := m ≠ [] ∧ m.length < 65536
+
+/-- how the peer's byte stream ends -/
+inductive Ending where
+  /-- the peer closed -/
+  | eof
+  /-- the socket failed -/
+  | err
+  /-- nothing more arrives, the connection stays open -/
+  | open
+  deriving Repr, DecidableEq
+
+/-- how the consumer's view of the stream ends -/
+inductive Terminal where
+  /-- `Ready(None)` -/
+  | clean
+  /-- `Ready(Some(Err))` -/
+  | error
+  /-- `Pending` for ever -/
+  | blocked
+  deriving Repr, DecidableEq
+
+/-- the bytes a read script carries before the close / the failure -/
+def bytesOf : List REv → Bytes
+  | [] => []
+  | .data bs :: s => bs ++ bytesOf s
+  | .pending :: s => bytesOf s
+  | .eof :: _ => []
+  | .err :: _ => []
+
+def endingOf : List REv → Ending
+  | [] => .open
+  | .data _ :: s => endingOf s
+  | .pending :: s => endingOf s
+  | .eof :: _ => .eof
+  | .err :: _ => .err
+
+/-- what the consumer has seen: the messages before the first terminal item, and that item -/
+def obs : List Item → List Bytes × Terminal
+  | [] => ([], .blocked)
+  | .msg m :: t => (m :: (obs t).1, (obs t).2)
+  | .pending :: t => obs t
+  | .idle :: _ => ([], .blocked)
+  | .endClean :: _ => ([], .clean)
+  | .err :: _ => ([], .error)
+
+/-! ## the byte-wise reader -/
+
+def atEnd (st : RdSt) : Ending → Terminal
+  | .open => .blocked
+  | .err => .error
+  | .eof => match st with
+    | .lenBytes [] => .clean
+    | _ => .error
+
+/-- feed the read machine one byte at a time (`RdSt.absorb` with a 1-byte read).  A state whose
+buffer is empty (`need = 0`: a zero-length frame was announced) fails at the next byte. -/
+def run (st : RdSt) : Bytes → Ending → List Bytes × Terminal
+  | [], e => ([], atEnd st e)
+  | b :: bs, e =>
+    if st.need = 0 then ([], .error)
+    else
+      match st.absorb [b] with
+      | (st', .msg m) => (m :: (run st' bs e).1, (run st' bs e).2)
+      | (st', _) => run st' bs e
+
+/-- states the machine can be in -/
+def _root_.HickoryVerif.TcpFraming.RdSt.WF : RdSt → Prop
+  | .lenBytes got => got.length < 2
+  | .datBytes len got => got.length < len ∨ len = 0
+
+/-- what an outcome of the receive loop means for the consumer, given what follows -/
+def after (o : RdOut) (r : List Bytes × Terminal) : List Bytes × Terminal :=
+  match o with
+  | .cont => r
+  | .pending => r
+  | .msg m => (m :: r.1, r.2)
+  | .idle => ([], .blocked)
+  | .endClean => ([], .clean)
+  | .errClosed => ([], .error)
+  | .ioErr => ([], .error)
+
+theorem absorb_one {st : RdSt} (hwf : st.WF) (b : Nat) (h2 : 2 ≤ st.need) :
+    (st.absorb [b]).2 = .cont ∧ (st.absorb [b]).1.WF ∧ (st.absorb [b]).1.need = st.need - 1 ∧
+      ∀ bs, (st.absorb [b]).1.absorb bs = st.absorb (b :: bs) := by
+  cases st with
+  | lenBytes got =>
+    have : got = [] := by
+      simp [RdSt.need] at h2
+      cases got with
+      | nil => rfl
+      | cons a t => simp at h2; omega
+    subst this
+    simp [RdSt.absorb, RdSt.WF, RdSt.need]
+  | datBytes len got =>
+    simp [RdSt.need] at h2
+    have : got.length + 1 < len := by omega
+    simp [RdSt.absorb, RdSt.WF, RdSt.need, this]
+    omega
+
+theorem absorb_wf {st : RdSt} (hwf : st.WF) {bs : Bytes} (hb : bs ≠ []) (hn : bs.length ≤ st.need) :
+    (st.absorb bs).1.WF := by
+  cases st with
+  | lenBytes got =>
+    simp only [RdSt.absorb]
+    split
+    · rename_i h; simpa [RdSt.WF] using h
+    · simp [RdSt.WF]; omega
+  | datBytes len got =>
+    simp only [RdSt.absorb]
+    split
+    · rename_i h; simp [RdSt.WF]; left; simpa using h
+    · simp [RdSt.WF]
+
+/-- one `poll_read` that delivers `bs.length ≤ need` bytes = `bs.length` byte steps -/
+theorem run_chunk (bs : Bytes) : ∀ {st : RdSt}, st.WF → bs ≠ [] → bs.length ≤ st.need →
+    ∀ (rest : Bytes) (e : Ending),
+      run st (bs ++ rest) e = after (st.absorb bs).2 (run (st.absorb bs).1 rest e) := by
+  induction bs with
+  | nil => intro st _ h; exact absurd rfl h
+  | cons b t ih =>
+    intro st hwf _ hn rest e
+    cases t with
+    | nil =>
+      have hne : st.need ≠ 0 := by simp at hn; omega
+      simp only [List.cons_append, List.nil_append, run, hne, if_false]
+      have hcont : (st.absorb [b]).2 ≠ .pending ∧ (st.absorb [b]).2 ≠ .idle ∧ (st.absorb [b]).2 ≠ .endClean
+          ∧ (st.absorb [b]).2 ≠ .errClosed ∧ (st.absorb [b]).2 ≠ .ioErr := by
+        cases st <;> simp [RdSt.absorb] <;> split <;> simp
+      generalize st.absorb [b] = r at hcont
+      obtain ⟨st', o⟩ := r
+      cases o <;> simp_all [after]
+    | cons b' t' =>
+      have h2 : 2 ≤ st.need := by simp at hn; omega
+      have hne : st.need ≠ 0 := by omega
+      obtain ⟨hc, hwf', hneed, hab⟩ := absorb_one hwf b h2
+      have := ih hwf' (by simp) (by simp at hn ⊢; omega) rest e
+      rw [hab] at this
+      rw [← this]
+      simp only [List.cons_append, run, hne, if_false]
+      generalize hr : st.absorb [b] = r at hc
+      obtain ⟨st', o⟩ := r
+      simp at hc; subst hc
+      simp
+
+/-! ## one `poll_read`, the receive loop -/
+
+theorem sockRead_spec (s : List REv) (n : Nat) :
+    match sockRead s n with
+    | (.pending, s') => bytesOf s' = bytesOf s ∧ endingOf s' = endingOf s
+    | (.idle, _) => bytesOf s = [] ∧ endingOf s = .open
+    | (.err, _) => bytesOf s = [] ∧ endingOf s = .err
+    | (.ready bs, s') =>
+      if bs = [] then (n = 0 ∧ bytesOf s ≠ []) ∨ (bytesOf s = [] ∧ endingOf s = .eof)
+      else bs.length ≤ n ∧ bytesOf s = bs ++ bytesOf s' ∧ endingOf s' = endingOf s := by
+  fun_induction sockRead s n <;> simp_all [bytesOf, endingOf]
+  constructor
+  · omega
+  · rw [← List.append_assoc, List.take_append_drop]
+
+theorem run_dead {st : RdSt} (h : st.need = 0) {bs : Bytes} (hb : bs ≠ []) (e : Ending) :
+    run st bs e = ([], .error) := by
+  cases bs with
+  | nil => exact absurd rfl hb
+  | cons b t => simp [run, h]
+
+/-- one `poll_read` call, seen from the byte-wise reader -/
+theorem readStep_run {st : RdSt} (hwf : st.WF) (s : List REv) :
+    (readStep st s).1.WF ∧
+      run st (bytesOf s) (endingOf s) =
+        after (readStep st s).2.2 (run (readStep st s).1 (bytesOf (readStep st s).2.1) (endingOf (readStep st s).2.1)) := by
+  have hs := sockRead_spec s st.need
+  unfold readStep
+  split
+  · rename_i s' heq
+    simp only [heq] at hs
+    simp [after, hwf, hs.1, hs.2]
+  · rename_i s' heq
+    simp only [heq] at hs
+    simp [after, hwf, hs.1, hs.2, run, atEnd]
+  · rename_i s' heq
+    simp only [heq] at hs
+    simp [after, hwf, hs.1, hs.2, run, atEnd]
+  · rename_i bs s' heq
+    simp only [heq] at hs
+    split
+    · rename_i hb
+      simp only [hb, if_true] at hs
+      refine ⟨hwf, ?_⟩
+      rcases hs with ⟨hn, hne⟩ | ⟨hnil, he⟩
+      · rw [run_dead hn hne]
+        cases st with
+        | lenBytes got => simp [RdSt.need] at hn; simp [RdSt.WF] at hwf; omega
+        | datBytes len got => simp [RdSt.closed, after]
+      · simp only [hnil, he, run]
+        cases st with
+        | lenBytes got => cases got <;> simp [RdSt.closed, after, atEnd]
+        | datBytes len got => simp [RdSt.closed, after, atEnd]
+    · rename_i hb
+      simp only [hb, if_false] at hs
+      obtain ⟨hle, hbytes, hend⟩ := hs
+      refine ⟨absorb_wf hwf hb hle, ?_⟩
+      rw [hbytes, hend]
+      exact run_chunk bs hwf hb hle _ _
+
+theorem after_after_cont (o : RdOut) (r : List Bytes × Terminal) : after .cont (after o r) = after o r := rfl
+
+/-- the receive loop of one `poll_next`, seen from the byte-wise reader -/
+theorem readLoop_run {st : RdSt} (hwf : st.WF) (s : List REv) :
+    (readLoop st s).1.WF ∧
+      run st (bytesOf s) (endingOf s) =
+        after (readLoop st s).2.2 (run (readLoop st s).1 (bytesOf (readLoop st s).2.1) (endingOf (readLoop st s).2.1)) := by
+  fun_induction readLoop st s with
+  | case1 st s st' s' h ih =>
+    have hstep := readStep_run hwf s
+    simp only [h] at hstep
+    have := ih hstep.1
+    refine ⟨this.1, ?_⟩
+    rw [hstep.2, after, this.2]
+  | case2 st s hne => exact readStep_run hwf s
+
+/-! ## the send loop does not disturb the receive side -/
+
+/-- every queued message is addressed to the peer (always true of `BufDnsStreamHandle::send`
+unless `with_remote_addr` was used) -/
+def AllOk (q : List (Bytes × Bool)) : Prop := ∀ x ∈ q, x.2 = true
+
+theorem writeLoop_done (vec : Bool) (w : WSide) (h : (writeLoop vec w).2 = .done) :
+    (writeLoop vec w).1.queue = [] ∧ (writeLoop vec w).1.send = none := by
+  fun_induction writeLoop vec w <;> simp_all
+
+theorem writeLoop_allOk (vec : Bool) (w : WSide) (hq : AllOk w.queue) : AllOk (writeLoop vec w).1.queue := by
+  fun_induction writeLoop vec w <;> simp_all [AllOk]
+
+theorem writeLoop_not_done (vec : Bool) (w : WSide) (hq : AllOk w.queue) (h : (writeLoop vec w).2 ≠ .done) :
+    (writeLoop vec w).1.send ≠ none := by
+  fun_induction writeLoop vec w <;> simp_all [AllOk]
+
+/-- the two ways through `poll_next` -/
+theorem pollNext_cases (c : Conn) :
+    (∃ w', writeLoop c.vec c.w = (w', .done) ∧
+        pollNext c = ({ c with w := w', rd := (readLoop c.rd c.rs).1, rs := (readLoop c.rd c.rs).2.1 },
+                      (readLoop c.rd c.rs).2.2.toItem)) ∨
+    (∃ w' o it, writeLoop c.vec c.w = (w', o) ∧ o ≠ .done ∧ (it = .pending ∨ it = .idle ∨ it = .err) ∧
+        (it = .pending → o = .pending) ∧ pollNext c = ({ c with w := w' }, it)) := by
+  unfold pollNext
+  split
+  · rename_i w' h; right; exact ⟨w', .pending, .pending, h, by simp, by simp, by simp, rfl⟩
+  · rename_i w' h; right; exact ⟨w', .idle, .idle, h, by simp, by simp, by simp, rfl⟩
+  · rename_i w' h; right; exact ⟨w', .err, .err, h, by simp, by simp, by simp, rfl⟩
+  · rename_i w' h; left; exact ⟨w', h, rfl⟩
+
+/-- The consumer's view of a whole run, against the byte-wise reader.
+(1) Whatever the send side does, the delivered messages are a prefix of what the byte-wise reader
+yields for the bytes of the script.  (2) If every queued message is for the peer and the run ends
+with no message half-sent, the consumer sees exactly the byte-wise reader's result. -/
+theorem drain_obs (c : Conn) (hwf : c.rd.WF) :
+    (obs (drain c).1).1 <+: (run c.rd (bytesOf c.rs) (endingOf c.rs)).1 ∧
+      (AllOk c.w.queue → (drain c).2.w.send = none →
+        obs (drain c).1 = run c.rd (bytesOf c.rs) (endingOf c.rs)) := by
+  fun_induction drain c with
+  | case1 c c' m h r ih =>
+    rcases pollNext_cases c with ⟨w', hw, hp⟩ | ⟨w', o, it, hw, ho, hit, _, hp⟩
+    · rw [h] at hp
+      simp only [Prod.mk.injEq] at hp
+      obtain ⟨rfl, hm⟩ := hp
+      have hrl := readLoop_run hwf c.rs
+      have hout : (readLoop c.rd c.rs).2.2 = .msg m := by
+        generalize (readLoop c.rd c.rs).2.2 = o at hm
+        cases o <;> simp_all [RdOut.toItem]
+      rw [hout] at hrl
+      have ih' := ih hrl.1
+      simp only [obs]
+      rw [hrl.2]
+      simp only [after]
+      refine ⟨by simpa using ih'.1, ?_⟩
+      intro hq hfin
+      have hq' : AllOk w'.queue := by have := writeLoop_allOk c.vec c.w hq; rwa [hw] at this
+      rw [ih'.2 hq' hfin]
+    · rw [h] at hp
+      simp only [Prod.mk.injEq] at hp
+      rcases hit with rfl | rfl | rfl <;> simp at hp
+  | case2 c c' h r ih =>
+    rcases pollNext_cases c with ⟨w', hw, hp⟩ | ⟨w', o, it, hw, ho, hit, hpend, hp⟩
+    · rw [h] at hp
+      simp only [Prod.mk.injEq] at hp
+      obtain ⟨rfl, hm⟩ := hp
+      have hrl := readLoop_run hwf c.rs
+      have hne := readLoop_ne_cont c.rd c.rs
+      have hout : (readLoop c.rd c.rs).2.2 = .pending := by
+        generalize (readLoop c.rd c.rs).2.2 = o at hm hne
+        cases o <;> simp [RdOut.toItem] at hm hne ⊢
+      rw [hout] at hrl
+      have ih' := ih hrl.1
+      simp only [obs]
+      rw [hrl.2]
+      simp only [after]
+      refine ⟨ih'.1, ?_⟩
+      intro hq hfin
+      have hq' : AllOk w'.queue := by have := writeLoop_allOk c.vec c.w hq; rwa [hw] at this
+      exact ih'.2 hq' hfin
+    · rw [h] at hp
+      simp only [Prod.mk.injEq] at hp
+      obtain ⟨rfl, rfl⟩ := hp
+      have ih' := ih hwf
+      simp only [obs]
+      refine ⟨ih'.1, ?_⟩
+      intro hq hfin
+      have hq' : AllOk w'.queue := by have := writeLoop_allOk c.vec c.w hq; rwa [hw] at this
+      exact ih'.2 hq' hfin
+  | case3 c c' it hnm hnp h =>
+    rcases pollNext_cases c with ⟨w', hw, hp⟩ | ⟨w', o, it', hw, ho, hit, _, hp⟩
+    · rw [h] at hp
+      simp only [Prod.mk.injEq] at hp
+      obtain ⟨rfl, rfl⟩ := hp
+      have hrl := readLoop_run hwf c.rs
+      have hne := readLoop_ne_cont c.rd c.rs
+      generalize (readLoop c.rd c.rs).2.2 = o at hrl hne hnm hnp
+      cases o <;> simp_all [RdOut.toItem, obs, after]
+    · rw [h] at hp
+      simp only [Prod.mk.injEq] at hp
+      obtain ⟨rfl, rfl⟩ := hp
+      refine ⟨by rcases hit with rfl | rfl | rfl <;> simp [obs], ?_⟩
+      intro hq hfin
+      have := writeLoop_not_done c.vec c.w hq (by rw [hw]; exact ho)
+      rw [hw] at this
+      exact absurd hfin this
